@@ -394,7 +394,7 @@ def _w_primitive(task):
                 else:
                     r = E[n](p)
             if copy_bad is not None:
-                t.violation(f"the mesh of a primitive's copy does not reflect the parameters of the primitive it was copied from [{kind}; {copy_bad}]", case, {})
+                t.violation(f"the mesh of the copy of a primitive does not reflect the parameters of the primitive it was copied from [{kind}; {copy_bad}]", case, {})
                 continue
             f = prim_fresh(p)
             V1, F1 = np.asarray(p.vertices), np.asarray(p.faces)
